@@ -262,9 +262,20 @@ class Server:
             import dds._api as api
 
             out = {"res": res, "log": list(su.LOG) if su is not None else [], "calls": list(self.cap.calls),
-                   "same_exc": same_obj, "ctx_clean": api._eval_ctx is None}
+                   "same_exc": same_obj, "ctx_clean": _ctx_clean(api)}
             return ["ok", out]
         raise ValueError(cmd)
+
+
+def _ctx_clean(api):
+    """True / False when the library exposes its module-level evaluation context the way the pinned version does
+    (`dds._api._eval_ctx`, None outside an evaluation); None = unknown after an internal refactoring (the behavioural
+    oracles - the next evaluation works, twin histories agree - still apply)."""
+    marker = object()
+    v = getattr(api, "_eval_ctx", marker)
+    if v is marker:
+        return None
+    return v is None
 
 
 def assign_inplace(obj, new):
@@ -305,11 +316,29 @@ class CustomError(Exception):
     pass
 
 
+import dataclasses as _dc  # noqa: E402
+
+
+@_dc.dataclass(frozen=True)
+class FrozenError(Exception):
+    """An exception whose instances refuse attribute assignment (a frozen dataclass), `__traceback__` included."""
+    code: int = 7
+
+
+class SlotsError(Exception):
+    """An exception that rejects new attributes (`e.extra = 1` fails), not the standard ones."""
+    __slots__ = ()
+
+
 def _make_exc(name):
     import builtins
 
     if name == "CustomError":
         return CustomError("injected user-code failure")
+    if name == "FrozenError":
+        return FrozenError(7)
+    if name == "SlotsError":
+        return SlotsError("injected user-code failure")
     if name == "DDSException":
         import dds
 
